@@ -232,4 +232,36 @@ Definition spec_reshape (ς : sstate) (t : nat) (dims : list Z) (refused : bool)
       Some (Some (sset ς t (mkSten dims cells' None 0 (s_view x) (s_cm x))))
   end.
 
+(* --- operation options (C07): where the values [vs] of an operation whose first tensor operand is
+   [ta] are delivered.  mode 0 = safe (fresh tensor), 1 = unsafe (into ta, returns ta),
+   2 = reuse r (into r, which takes the result shape), 3 = incr r (added into r) --- *)
+Definition spec_deliver (add : V -> V -> V) (ς : sstate) (ta : nat) (rshape : list Z) (vs : list V)
+           (mode : Z) (r : nat) (fresh_cm : bool) : option (sstate * nat) :=
+  if mode =? 0 then
+    let '(ς1, cells) := s_alloc ς vs in
+    Some (s_add ς1 (mkSten rshape cells None 0 false fresh_cm))
+  else if mode =? 1 then
+    match sget ς ta with
+    | None => None
+    | Some a =>
+      if negb (length (s_cells a) =? length vs)%nat then None
+      else Some (mkSS (write_cells (s_vals ς) (s_cells a) vs) (s_tens ς), ta)
+    end
+  else
+    match sget ς r with
+    | None => None
+    | Some x =>
+      if negb (length (s_cells x) =? length vs)%nat then None else
+      (* the destination takes the result shape (same flat order; column-major destinations
+         are left to the Reshape rule and not specified here) *)
+      if s_cm x && negb (list_eqb (s_shape x) rshape) then None else
+      let x' := mkSten rshape (s_cells x) None 0 (s_view x) (s_cm x) in
+      let vals := if mode =? 2 then vs
+                  else map (fun p => add (nth (fst p) (s_vals ς) vzero) (snd p)) (combine (s_cells x) vs) in
+      Some (sset (mkSS (write_cells (s_vals ς) (s_cells x) vals) (s_tens ς)) r x', r)
+    end.
+
+Fixpoint map2 {A B C} (f : A -> B -> C) (a : list A) (b : list B) : list C :=
+  match a, b with x :: a', y :: b' => f x y :: map2 f a' b' | _, _ => [] end.
+
 End Spec.
